@@ -877,3 +877,145 @@ func (e *c9enum) function(fd *ast.FuncDecl) ([][]string, bool) {
 	}
 	return paths, true
 }
+
+// ---------------- C11: the include-depth guard, unchecked type assertions, reflective field reads ----------------
+func init() { siteTables["C11"] = sitesC11 }
+
+func sitesC11(_ *token.FileSet, _ map[string]*ast.File) (string, error) {
+	var pkgs []*c9pkg
+	for _, dir := range []string{repoDir, repoDir + "/internal/helpers", repoDir + "/internal/reflect", repoDir + "/internal/parser"} {
+		p, err := loadTypedFull(dir)
+		if err != nil {
+			return "", err
+		}
+		pkgs = append(pkgs, p)
+	}
+	root := pkgs[0]
+	limit := ""
+	if c, ok := root.pkg.Scope().Lookup("maxIncludeDepth").(*types.Const); ok {
+		limit = c.Val().ExactString()
+	}
+	guard := ""
+	var asserts, fields, recovers []string
+	for _, p := range pkgs {
+		for _, f := range p.files {
+			fname := filepath.Base(p.fset.Position(f.Pos()).Filename)
+			for _, d := range f.Decls {
+				fd, ok := d.(*ast.FuncDecl)
+				if !ok || fd.Body == nil {
+					continue
+				}
+				// the first statement of evalInclude: if <cond> { return nil, error }
+				if fd.Name.Name == "evalInclude" && len(fd.Body.List) > 0 {
+					if is, ok := fd.Body.List[0].(*ast.IfStmt); ok && is.Init == nil && len(is.Body.List) == 1 {
+						if _, ok := is.Body.List[0].(*ast.ReturnStmt); ok {
+							guard = nodeStr(p.fset, is.Cond)
+						}
+					}
+				}
+				// type switches and comma-ok assertions are checked forms
+				checked := map[*ast.TypeAssertExpr]bool{}
+				guardsFields := false
+				ast.Inspect(fd.Body, func(n ast.Node) bool {
+					switch x := n.(type) {
+					case *ast.TypeSwitchStmt:
+						ast.Inspect(x.Assign, func(m ast.Node) bool {
+							if ta, ok := m.(*ast.TypeAssertExpr); ok {
+								checked[ta] = true
+							}
+							return true
+						})
+					case *ast.AssignStmt:
+						if len(x.Lhs) == 2 && len(x.Rhs) == 1 {
+							if ta, ok := x.Rhs[0].(*ast.TypeAssertExpr); ok {
+								checked[ta] = true
+							}
+						}
+					case *ast.ValueSpec:
+						if len(x.Names) == 2 && len(x.Values) == 1 {
+							if ta, ok := x.Values[0].(*ast.TypeAssertExpr); ok {
+								checked[ta] = true
+							}
+						}
+					case *ast.SelectorExpr:
+						if x.Sel.Name == "IsExported" || x.Sel.Name == "CanInterface" || x.Sel.Name == "PkgPath" {
+							guardsFields = true
+						}
+					case *ast.CallExpr:
+						if id, ok := x.Fun.(*ast.Ident); ok && id.Name == "recover" {
+							recovers = append(recovers, fmt.Sprintf("(%s, %s)", coqBytes(fname), coqBytes(fd.Name.Name)))
+						}
+					}
+					return true
+				})
+				ast.Inspect(fd.Body, func(n ast.Node) bool {
+					switch x := n.(type) {
+					case *ast.TypeAssertExpr:
+						if x.Type == nil || checked[x] {
+							return true
+						}
+						class := "AOther"
+						if c, ok := x.X.(*ast.CallExpr); ok {
+							if s, ok := c.Fun.(*ast.SelectorExpr); ok && s.Sel.Name == "Get" {
+								if tv, ok := p.info.Types[s.X]; ok && strings.HasSuffix(c9TypeName(tv.Type), "sync.Pool") {
+									class = "APool"
+								}
+							}
+						}
+						// an interface of this package with exactly one implementation, asserted to that implementation
+						if tv, ok := p.info.Types[x.X]; ok {
+							if it, ok := tv.Type.Underlying().(*types.Interface); ok && it.NumMethods() > 0 {
+								impls := 0
+								var only types.Type
+								sc := p.pkg.Scope()
+								for _, nm := range sc.Names() {
+									if tn, ok := sc.Lookup(nm).(*types.TypeName); ok {
+										if _, isI := tn.Type().Underlying().(*types.Interface); isI {
+											continue
+										}
+										if types.Implements(types.NewPointer(tn.Type()), it) || types.Implements(tn.Type(), it) {
+											impls++
+											only = tn.Type()
+										}
+									}
+								}
+								if tt, ok := p.info.Types[x.Type]; ok && impls == 1 {
+									t := tt.Type
+									if pt, ok := t.(*types.Pointer); ok {
+										t = pt.Elem()
+									}
+									if types.Identical(t, only) {
+										class = "ASoleImpl"
+									}
+								}
+							}
+						}
+						asserts = append(asserts, fmt.Sprintf("(%s, %s, %s, %s)", coqBytes(fname), coqBytes(fd.Name.Name), coqBytes(nodeStr(p.fset, x)), class))
+					case *ast.CallExpr:
+						if s, ok := x.Fun.(*ast.SelectorExpr); ok && (s.Sel.Name == "Field" || s.Sel.Name == "FieldByName" || s.Sel.Name == "FieldByIndex" || s.Sel.Name == "FieldByNameFunc") {
+							if tv, ok := p.info.Types[s.X]; ok && c9TypeName(tv.Type) == "reflect.Value" {
+								fields = append(fields, fmt.Sprintf("(%s, %s, %s, %v)", coqBytes(fname), coqBytes(fd.Name.Name), coqBytes(nodeStr(p.fset, x)), guardsFields))
+							}
+						}
+					}
+					return true
+				})
+			}
+		}
+	}
+	sort.Strings(asserts)
+	sort.Strings(fields)
+	sort.Strings(recovers)
+	if limit == "" {
+		limit = "0"
+	}
+	var b strings.Builder
+	b.WriteString("From Coq Require Import List.\nImport ListNotations.\nFrom V Require Import Base.Bytes.\n")
+	b.WriteString("Inductive aclass := APool | ASoleImpl | AOther.\n")
+	fmt.Fprintf(&b, "Definition max_include_depth : nat := %s.\n", limit)
+	b.WriteString("Definition include_guard : bytes := " + coqBytes(guard) + ".\n")
+	b.WriteString("Definition unchecked_assertions : list (bytes * bytes * bytes * aclass) := [\n  " + strings.Join(asserts, ";\n  ") + "\n].\n")
+	b.WriteString("Definition reflect_field_reads : list (bytes * bytes * bytes * bool) := [\n  " + strings.Join(fields, ";\n  ") + "\n].\n")
+	b.WriteString("Definition recover_sites : list (bytes * bytes) := [\n  " + strings.Join(recovers, ";\n  ") + "\n].\n")
+	return b.String(), nil
+}
